@@ -26,7 +26,8 @@ Init == l \in 1..Len(Rec)
 Next == UNCHANGED l
 
 \* value-indexed laws (their counterexamples are tuples of value indexes) vs. the conversion list
-ValueLawNames == OrderLawNames \cup (OtherLawNames \ {"std-roundtrip"})
+ListLawNames == {"std-roundtrip", "constructible"}
+ValueLawNames == OrderLawNames \cup (OtherLawNames \ ListLawNames)
 
 InvolvesNaN(T, w) == \E k \in 1..Len(w) : T.nan[w[k]] = 1
 
@@ -35,17 +36,18 @@ Show(T, law, dev, part) ==
   PrintT(<<"MISMATCH", ToJson([line |-> l, id |-> T.id, what |-> law, dev |-> dev, count |-> Cardinality(part),
                                witness |-> w,
                                values |-> IF law = "std-roundtrip" THEN <<T.std[w[1]].ty>>
+                                          ELSE IF law = "constructible" THEN <<ToJson(T.unbuildable[w[1]])>>
                                           ELSE [k \in 1..Len(w) |-> T.dbg[w[k]]]])>>)
 
 LawOk(T, law) ==
   LET bad == TLCEval(Bad(T, law)) IN
   bad = {} \/
-    IF law = "std-roundtrip" THEN Show(T, law, "", bad)
+    IF law \in ListLawNames THEN Show(T, law, "", bad)
     ELSE LET withNaN == TLCEval({w \in bad : InvolvesNaN(T, w)})
              clean == bad \ withNaN IN
          /\ clean = {} \/ Show(T, law, "", clean)
          /\ withNaN = {} \/ Show(T, law, "nan", withNaN)
 
-TableOk == LET T == Rec[l] IN \A law \in ValueLawNames \cup {"std-roundtrip"} : LawOk(T, law)
+TableOk == LET T == Rec[l] IN \A law \in ValueLawNames \cup ListLawNames : LawOk(T, law)
 Inv == TableOk \/ TRUE
 =============================================================================
